@@ -140,7 +140,8 @@ def run(path, fs, call):
     with common.listing(call.get('listing')), common.quiet():
         res = oq.read_ms5_xsf(path, fs['prefix'], fs['qc'], call['corr'], **kw)
     out = {}
-    if call['corr'] in BI:
+    if call['corr'] in BI and not (fs['tmax'] == 1 and not hasattr(res, 'content')):
+        # (a bulk correlator of a tmax = 1 file comes back as a bare CObs: the numbers are judged all the same)
         content = res.content
         if len(content) != fs['tmax']:
             raise common.Violation('read_ms5_xsf returns %d timeslices, the file stores %d' % (len(content), fs['tmax']))
